@@ -157,13 +157,18 @@ func (e *Exec) envForLoop(fr *Frame, h *ssa.BasicBlock, st *State) *Env {
 }
 
 // frameObligations: every location allocated at entry and not listed in 'modifies' keeps its value.
-func (e *Exec) frameObligations(fr *Frame, exit *State, exitGuard string, envEntry *Env, suffix string) {
-	ctr := fr.ctr
-	type allowed struct {
-		whole bool
-		refs  []location
+type frameAllowed struct {
+	whole bool
+	refs  []location
+}
+
+// frameAllow evaluates the function's modifies clauses (in the entry state) into what may change, per heap.
+func (e *Exec) frameAllow(fr *Frame, envEntry *Env) map[string]*frameAllowed {
+	if fr.allow != nil {
+		return fr.allow
 	}
-	allow := map[string]*allowed{}
+	ctr := fr.ctr
+	allow := map[string]*frameAllowed{}
 	var locs []location
 	for _, m := range ctr.Modifies {
 		locs = append(locs, e.evalLocs(m.E, envEntry)...)
@@ -174,7 +179,7 @@ func (e *Exec) frameObligations(fr *Frame, exit *State, exitGuard string, envEnt
 			for _, c := range loc.comps {
 				a := allow[c.name]
 				if a == nil {
-					a = &allowed{}
+					a = &frameAllowed{}
 					allow[c.name] = a
 				}
 				if loc.key == "" {
@@ -188,7 +193,7 @@ func (e *Exec) frameObligations(fr *Frame, exit *State, exitGuard string, envEnt
 		case "heap":
 			a := allow[loc.heap]
 			if a == nil {
-				a = &allowed{}
+				a = &frameAllowed{}
 				allow[loc.heap] = a
 			}
 			if loc.whole {
@@ -198,6 +203,96 @@ func (e *Exec) frameObligations(fr *Frame, exit *State, exitGuard string, envEnt
 			}
 		}
 	}
+	fr.allow = allow
+	return allow
+}
+
+// frameQuantified is the frame condition of one heap as a closed formula: everything of the heap that existed at
+// function entry and is not listed in 'modifies' has its entry value in the state given (a monotone ghost set has
+// only grown). Used as an automatic loop invariant: assumed at the loop head, proved at loop entry and at every back edge.
+func (e *Exec) frameQuantified(fr *Frame, name string, cur string) string {
+	if name == "$top" || strings.HasPrefix(name, "$visited$") || strings.HasPrefix(name, "$defer$") {
+		return "true"
+	}
+	srt := e.heapSorts[name]
+	entryV := e.get(e.entry, name, srt)
+	if cur == entryV {
+		return "true"
+	}
+	envEntry := e.envForFunc(fr, e.entry, e.entry, nil)
+	allow := e.frameAllow(fr, envEntry)
+	var parts []string
+	if strings.HasPrefix(name, "$g$") {
+		gn := strings.TrimPrefix(name, "$g$")
+		if i := strings.Index(gn, "$"); i > 0 {
+			gn = gn[:i]
+		}
+		if g, ok := e.P.Spec.Ghosts[gn]; ok {
+			if g.Scratch {
+				return "true"
+			}
+			if g.Monotone {
+				ks, _, _ := arrayParts(srt)
+				k := Sym(e.Out.FreshName("af$k"))
+				parts = append(parts, "(forall (("+k+" "+string(ks)+")) (! (=> (select "+entryV+" "+k+") (select "+cur+" "+k+")) :pattern ((select "+cur+" "+k+"))))")
+			}
+		}
+	}
+	a := allow[name]
+	if a != nil && a.whole {
+		return And(parts...)
+	}
+	top0 := e.top(e.entry)
+	ks, vs, isArr := arrayParts(srt)
+	switch {
+	case !isArr:
+		parts = append(parts, Eq(cur, entryV))
+	case strings.HasPrefix(name, "$g$") || strings.HasPrefix(name, "G$"):
+		k := Sym(e.Out.FreshName("af$k"))
+		var ex []string
+		if a != nil {
+			for _, l := range a.refs {
+				ex = append(ex, Not(l.member(k, "")))
+			}
+		}
+		parts = append(parts, "(forall (("+k+" "+string(ks)+")) (! "+Imp(And(ex...), Eq(Sel(cur, k), Sel(entryV, k)))+" :pattern ((select "+cur+" "+k+"))))")
+	default:
+		r := Sym(e.Out.FreshName("af$r"))
+		conds := []string{"(<= (owner " + r + ") " + top0 + ")"}
+		k2s, _, twoLevel := arrayParts(vs)
+		if strings.HasPrefix(name, "M$") {
+			conds = append(conds, "(> "+r+" 0)")
+		}
+		if twoLevel && (strings.HasPrefix(name, "E$") || strings.HasPrefix(name, "M$")) {
+			i := Sym(e.Out.FreshName("af$i"))
+			if a != nil {
+				for _, l := range a.refs {
+					conds = append(conds, Not(l.member(r, i)))
+				}
+			}
+			eq := Eq(Sel(Sel(cur, r), i), Sel(Sel(entryV, r), i))
+			if strings.HasPrefix(name, "M$") && strings.HasSuffix(name, "$val") {
+				domName := strings.TrimSuffix(name, "$val") + "$dom"
+				if ds, ok := e.heapSorts[domName]; ok {
+					eq = Imp(Sel(Sel(e.get(e.entry, domName, ds), r), i), eq)
+				}
+			}
+			parts = append(parts, "(forall (("+r+" Int) ("+i+" "+string(k2s)+")) (! "+Imp(And(conds...), eq)+" :pattern ((select (select "+cur+" "+r+") "+i+"))))")
+		} else {
+			if a != nil {
+				for _, l := range a.refs {
+					conds = append(conds, Not(l.member(r, "")))
+				}
+			}
+			parts = append(parts, "(forall (("+r+" Int)) (! "+Imp(And(conds...), Eq(Sel(cur, r), Sel(entryV, r)))+" :pattern ((select "+cur+" "+r+"))))")
+		}
+	}
+	return And(parts...)
+}
+
+func (e *Exec) frameObligations(fr *Frame, exit *State, exitGuard string, envEntry *Env, suffix string) {
+	ctr := fr.ctr
+	allow := e.frameAllow(fr, envEntry)
 	top0 := e.top(e.entry)
 	for _, name := range sortedKeys(exit.H) {
 		if name == "$top" || strings.HasPrefix(name, "$visited$") || strings.HasPrefix(name, "$defer$") {
